@@ -15,6 +15,7 @@
 From Coq Require Import Reals Lra Psatz List Bool.
 From D3 Require Import Base.Ops Base.Vec Base.RVec Base.RVec2 Spec.Convex Model.DistPrim
      Proofs.Equivariance.
+From D3 Require Base.RVec3.
 Import ListNotations.
 Local Open Scope R_scope.
 
@@ -179,6 +180,7 @@ Section Rigid.
     point_to_box (g p) (moveP T) sz = map2 (point_to_box p T sz).
   Proof.
     unfold point_to_box, map2. cbn [fst snd].
+    rewrite !D3.Base.RVec3.inverse_transform_point_code_eq.
     unfold moveP, g. rewrite local_point_invariant by auto.
     change (trans (compose (P Rg t) T)) with (rigid Rg t (trans T)).
     change (rot (compose (P Rg t) T)) with (mulMM Rg (rot T)).
